@@ -5,7 +5,7 @@
 (* deviation whose guard holds REPLACES the contract action for that event.        *)
 EXTENDS Seq
 
-KnownIds == {"C10-KF1"}
+KnownIds == {}
 
 (* C10-KF1: ValVec32::set(i, x) overwrites slot i with ptr::write and never runs the       *)
 (* destructor of the element that was there: the old element is leaked.  Trigger: a         *)
